@@ -581,3 +581,20 @@ pub fn run_modes(
     let log2 = std::mem::take(&mut *log.lock().unwrap());
     ModesRun { pass1, pass2, log1, log2 }
 }
+
+/// Full observation of a checker input (everything the statement lists).
+pub fn ck_obs(case: &CkCase, b: &Built) -> String {
+    let r = run_two_pass(case, b);
+    // post state for the by-hand second call: the declared mutations (fixed, schedule-independent)
+    let m = run_modes(case, b, &|_| {
+        let mut o = std::collections::BTreeMap::new();
+        for s in &case.sols {
+            for (k, v) in &s.mutations {
+                o.insert(([s.contract; 32], k.clone()), v.clone());
+            }
+        }
+        o
+    });
+    format!("{:?} | {:?} | {:?}", r.out, m.pass1, m.pass2)
+}
+
